@@ -303,8 +303,8 @@ def worker(arg):
 
 def check(tier, seed):
     t = pc.trees("plain", "san")
-    n = 300 if tier == "quick" else 4000
-    nsan = 12 if tier == "quick" else 200
+    n = 300 if tier == "quick" else 1500
+    nsan = 12 if tier == "quick" else 60
     res = Result("exploration")
     res.rule = RULE
     base = seed * 1000000 + (0 if tier == "quick" else 50000) + 160000
